@@ -9,6 +9,8 @@ CLAIMED = {
          "Seeded exploration: every block of every run is recomputed by 2-4 replicas whose node-local conditions are owned by the simulator (Go map order through a runtime seam, time.Local, skewed virtual clock, restart and rollback histories).", LEDGER_NOTE, "3 C01"),
  "C02": ("exploration", "deterministic simulation: seeded multi-replica ledger runs, adversarial mempool, honest proposal must validate+insert on every same-head replica",
          "Seeded exploration of simulated multi-replica ledger histories with the real ProposeBlock/ValidateBlock/AddBlock on every replica; a clean batch is evidence, not proof.", LEDGER_NOTE, "3 C02"),
+ "C03": ("exploration", "deterministic simulation with a Byzantine peer: 29 tamper operators on every valid block of seeded ledger runs, delivered through real decode+AddBlock; before/after digests incl. simulated-disk unit counter",
+         "Seeded exploration: tens of thousands of tampered copies per minute, each of a block that is valid in its context; rejection and side-effect freedom are both checked, and the honest original must still insert.", LEDGER_NOTE, "3 C03"),
  "C04": ("exploration", "deterministic simulation: full ledger scan after every committed block + per-transaction re-application on a private state, bound from configuration",
          "Seeded exploration of ledger histories incl. epoch transitions with drawn outcomes; conservation is checked as an invariant after every block, not only at the end.", LEDGER_NOTE, "3 C04"),
  "C05": ("exploration", "deterministic simulation: per-transaction per-address (balance, stake) deltas against pre-state relationships",
@@ -18,6 +20,8 @@ CLAIMED = {
  "C09": ("fault_enumeration", "deterministic simulation with crash injection: every storage unit of recorded operations is a crash point; restart + catch-up vs uncrashed twin",
          "For each recorded operation the crash points are enumerated completely (every atomic storage unit); which scenarios and operations are recorded is seeded sampling. Second-order crashes are sampled.",
          "The store is modelled as prefix-durable over atomic units (put/delete/batch); LevelDB itself is not exercised. " + LEDGER_NOTE, "3 C09"),
+ "C13": ("exploration", "deterministic simulation: op-by-op comparison of the real copy-on-write store with a reference map; in-run canonical-state and disk-unit invariance around speculative work; historical reads vs commit-time records under restarts/rollbacks",
+         "Seeded exploration of operation sequences on the component and of ledger histories for the in-run clauses.", LEDGER_NOTE, "3 C13"),
  "C10": ("exploration", "deterministic simulation: live validator view vs fresh Load() after every block on every replica, plus restart/rollback rebuilds; registry vs ledger scan",
          "Seeded exploration of identity-changing histories; comparison covers every public getter incl. committee draws and ordered pool members.", LEDGER_NOTE, "3 C10"),
 }
